@@ -1,0 +1,23 @@
+//go:build verif
+
+package micro
+
+import (
+	"github.com/awalterschulze/gominikanren/sexpr/ast"
+)
+
+// Exports of unexported functions for the verification harness (/verif). Only compiled with -tags verif.
+
+func VerifUnify(u, v *ast.SExpr, s Substitutions) (Substitutions, bool) { return unify(u, v, s) }
+func VerifWalk(v *ast.Variable, s Substitutions) *ast.SExpr             { return walk(v, s) }
+func VerifWalkStar(v *ast.SExpr, s Substitutions) *ast.SExpr            { return walkStar(v, s) }
+func VerifOccurs(x *ast.Variable, v *ast.SExpr, s Substitutions) bool   { return occurs(x, v, s) }
+func VerifExts(x *ast.Variable, v *ast.SExpr, s Substitutions) (Substitutions, bool) {
+	return exts(x, v, s)
+}
+func VerifReifyS(v *ast.SExpr) Substitutions            { return reifyS(v) }
+func VerifTakeStream(n int, s *StreamOfStates) []*State { return takeStream(n, s) }
+
+// VerifIsSuspension reports whether the head cell of a non-nil stream is an immature (suspended) cell,
+// without forcing it.
+func VerifIsSuspension(s *StreamOfStates) bool { return s != nil && s.state == nil }
